@@ -54,7 +54,7 @@ REQUIRED = ["union_volume_checked", "level1_checked", "level2_checked", "levels_
             "tangent_neighbours", "disjoint_neighbours", "growing_radii", "tapering_radii",
             "frontend_checked", "named_levels_checked", "same_skeleton_other_radii",
             "zero_radius_tips", "far_exact_layouts", "other_length_units",
-            "levels_as_numpy_integers", "failed_calls_before_measuring"]
+            "levels_as_numpy_integers", "failed_calls_before_measuring", "lattice_directions"]
 FLOOR = {"quick": 500, "thorough": 20000}
 SHARDS = {"quick": 8, "thorough": 16}
 TIMEOUT = {"quick": 400, "thorough": 3000}
@@ -112,10 +112,20 @@ def build(case):
     if case["dir"] == "axis":
         u = np.zeros(3)
         u[int(rng.integers(0, 3))] = float(rng.choice([-1, 1]))
+    elif case["dir"] == "lattice":
+        # exactly along a lattice direction: space / face diagonals and (1, 2, 2)-type vectors,
+        # every sign pattern (all three coordinate steps of a compartment are then equal or in a
+        # fixed small ratio, exactly)
+        base = [(1, 1, 1), (1, 1, 0), (1, 0, 1), (0, 1, 1), (1, 2, 2), (2, 1, 2), (1, 1, 2)][
+            int(rng.integers(0, 7))]
+        u = np.array(base, dtype=np.float64) * rng.choice([-1.0, 1.0], 3)
+        u /= np.linalg.norm(u)
     else:
         u = rng.normal(size=3)
         u /= np.linalg.norm(u)
     off = rng.normal(size=3) * case["offset"] * float(case.get("unit", 1.0))
+    if case["dir"] == "lattice":
+        off = np.zeros(3) if case["seed"] % 2 else np.full(3, float(np.round(off[0])))
     if case.get("far_exact"):
         # far from the origin but exactly representable: an axis-aligned line, positions on a
         # 1/4 grid, offset 2^18 (float32 spacing there is 1/32), so no rounding blurs the layout
@@ -266,6 +276,8 @@ def exec_union(ctx, case):
         ctx.count("zero_radius_tips")
     if case.get("far_exact"):
         ctx.count("far_exact_layouts")
+    if case["dir"] == "lattice":
+        ctx.count("lattice_directions")
     want = true_union(zz, r, pid)
     _classify(ctx, zz, r, pid)
     if case.get("unit", 1.0) != 1.0:
@@ -426,7 +438,7 @@ def run(ctx):
                     "profile": str(rng.choice(["uniform", "taper", "grow", "mixed", "mixed"])),
                     "spacing": str(rng.choice(["tight", "overlap", "overlap", "tangent", "apart",
                                                "long"])),
-                    "dir": str(rng.choice(["axis", "random", "random"])),
+                    "dir": str(rng.choice(["axis", "random", "random", "lattice"])),
                     "offset": float(rng.choice([0.0, 10.0, 300.0])),
                     "frontend": bool(rng.random() < 0.15),
                     "zero_tip": bool(rng.random() < 0.15), "far_exact": bool(rng.random() < 0.12)}
